@@ -519,10 +519,16 @@ package validate
 //@   requires[C06] jsonOrNum(data) && data != nil
 //@   pure
 //@   ensures[C06] (result0 == "number") == isF64(data)
+// The object validator's own body is only partly under contract (its helpers are not): the obligations of its body
+// that do not discharge are listed as unproven for the properties they are tagged with; callers rely on this shape.
 //@ func (*objectValidator).Validate
+//@   effects validation
+//@   maypanic
 //@   requires[C06] isJSON(data)
-//@   modifies *
-//@   ensures[C06] result != nil
+//@   ensures[C04,C11] redeemed(o) == old(o.Options.recycleValidators)
+//@   ensures[C04,C06] result != nil && okResult(result)
+//@   ensures[C08] implies(!old(o.Options.recycleValidators), unchanged(all(o)))
+//@   on_panic ensures[C11] redeemed(o) == old(o.Options.recycleValidators)
 
 //@ func IsValueValidAgainstRange
 //@   requires[C06] val != nil
@@ -777,9 +783,10 @@ package validate
 //@   loop 1 invariant kind != 22 && kind == kind(data)
 //@   loop 2 unroll
 //@   loop 2 invariant liveRes(result) && !redeemed(s) && s.Options == old(s.Options) && s.Schema == old(s.Schema)
-//@   loop 2 invariant forall(k, 0, 8, implies(k > idx2, s.validators[k] == old(s.validators[k]) && !redeemed(ptrof(s.validators[k]))))
+//@   loop 2 invariant forall(k, 0, 8, implies(k > idx2, s.validators[k] == old(s.validators[k]) && !redeemed(ptrof(old(s.validators[k])))))
 //@   loop 2 invariant forall(k, 0, 8, implies(k <= idx2, ite(old(s.Options.recycleValidators), isnil(s.validators[k]), s.validators[k] == old(s.validators[k]))))
 //@   loop 2 invariant implies(idx2 < 1, readyProps(propsSlot(s)))
+//@   loop 2 invariant implies(!old(s.Options.recycleValidators), unchanged(all(s)))
 //@   requires[C06] isJSON(data)
 //@   requires[C06,C04] s == nil || readySV(s)
 //@   ensures[C04,C11] s == nil || redeemed(s) == old(s.Options.recycleValidators)
